@@ -56,6 +56,7 @@ type request struct {
 
 type yieldReq struct {
 	n    int
+	inst int
 	site string
 	d    time.Duration
 	ch   chan struct{}
@@ -108,6 +109,11 @@ type Driver struct {
 	lastNow  time.Duration
 	maxDepth int
 	panicMsg string
+
+	owners       map[string]*groupOwner
+	endStep      uint64
+	endAt        time.Duration
+	lastFaultEnd time.Duration
 
 	skipped        map[string]int
 	judged         map[string]int
@@ -215,8 +221,15 @@ func (d *Driver) Run() {
 			f := f
 			d.push(f.From, "fault", func() { d.closeWatches(f) })
 		}
-		if (f.Kind == FPartition || f.Kind == FWatchHold) && f.To > 0 {
-			// wake-up point so that held deliveries are rescheduled (they carry their own times)
+		if f.To > 0 {
+			to := f.To
+			d.push(to, "fault-end", func() {
+				d.mu.Lock()
+				if to > d.lastFaultEnd {
+					d.lastFaultEnd = to
+				}
+				d.mu.Unlock()
+			})
 		}
 	}
 	endAt := p.Until + p.Tail
@@ -226,6 +239,7 @@ func (d *Driver) Run() {
 		synctest.Wait()
 		d.mu.Lock()
 		d.lastNow = d.now()
+		d.sample()
 		d.drainInbox()
 		now := d.lastNow
 		if d.heap.Len() > 0 && d.heap[0].at <= now {
@@ -276,7 +290,10 @@ func (d *Driver) drainInbox() {
 			d.push(d.lastNow+y.d, "yield", func() {
 				d.mu.Lock()
 				delete(d.parked, y)
-				d.logf("yield-release g%d %s", d.gidOrd(y.gid), y.site)
+				if in := d.inst(y.inst); in != nil {
+					in.parkedYields--
+				}
+				d.logf("yield-release i%d g%d %s", y.inst, d.gidOrd(y.gid), y.site)
 				d.mu.Unlock()
 				close(y.ch)
 			})
@@ -424,6 +441,9 @@ func (d *Driver) acceptOp(op *Op) {
 	}
 	d.h.Ops = append(d.h.Ops, op)
 	d.inflight[op] = true
+	if in != nil {
+		in.inflightOps++
+	}
 	d.stats.Ops++
 	d.ileave = d.ileave*1099511628211 ^ uint64(op.Inst+2)<<8 ^ uint64(len(op.Kind))
 	d.logf("invoke #%d i%d g%d %s key=%s rev=%d by=%s", op.ID, op.Inst, d.gidOrd(op.GID), op.Kind, op.Key, op.Rev, op.Caller)
@@ -576,6 +596,9 @@ func (d *Driver) finishOp(op *Op, resp opResp) {
 	op.SRet = d.step
 	op.Err = resp.err
 	delete(d.inflight, op)
+	if in := d.inst(op.Inst); in != nil {
+		in.inflightOps--
+	}
 	d.logf("return #%d i%d %s err=%v", op.ID, op.Inst, op.Kind, resp.err)
 	if op.obj != nil && resp.err == nil {
 		switch op.Kind {
@@ -607,6 +630,9 @@ func (d *Driver) shutdown() {
 	d.mu.Lock()
 	d.ending = true
 	d.lastNow = d.now()
+	d.endStep = d.step + 1
+	d.step++
+	d.endAt = d.lastNow
 	d.logf("end-of-plan")
 	var objs []*elObj
 	for _, in := range d.insts {
@@ -646,6 +672,9 @@ func (d *Driver) shutdown() {
 		sort.Slice(ys, func(i, j int) bool { return ys[i].n < ys[j].n })
 		for _, y := range ys {
 			delete(d.parked, y)
+			if in := d.inst(y.inst); in != nil {
+				in.parkedYields--
+			}
 			close(y.ch)
 		}
 		for _, s := range d.subs {
